@@ -2,7 +2,6 @@ package faults
 
 import (
 	"context"
-	"errors"
 	"fmt"
 	"os"
 	"runtime"
@@ -103,14 +102,16 @@ func tagOf(pod *api.PodSandbox, ct *api.Container) string {
 // a handler-driven way during the main request.
 func (f *fixture) enter(pl *plug, kind, tag string) error {
 	f.record(pl, kind, tag)
+	if ft := pl.spec.Fault; ft.Kind == "error" && (tag == mainTag || (tag == followTag && ft.Again)) {
+		err, _ := handlerError(ft)
+		return err
+	}
 	if tag != mainTag {
 		return nil
 	}
 	switch ft := pl.spec.Fault; ft.Kind {
 	case "hang":
 		<-f.release // ignores its context on purpose
-	case "error":
-		return errors.New(ft.ErrText)
 	case "close":
 		if ft.When == "during" {
 			pl.proxy.CloseNow()
@@ -653,6 +654,8 @@ func runOnce(c C07Case) (v verdict) {
 			v.classes = append(v.classes, "close:"+ft.When)
 		case "undecodable", "garbage":
 			v.classes = append(v.classes, ft.Kind+":"+ft.Level)
+		case "error":
+			v.classes = append(v.classes, errClass(ft), "error-form:"+errFormOf(ft))
 		}
 		if pl.spec.Big {
 			v.classes = append(v.classes, "faulty-big-response")
@@ -749,7 +752,7 @@ func runOnce(c C07Case) (v verdict) {
 		}
 		if !reached {
 			if invoked != 0 {
-				v.fail = fmt.Sprintf("clause 5: plugin %02d was invoked although plugin %02d before it had failed the request with an error", pl.spec.Idx, vetoer.spec.Idx)
+				v.fail = fmt.Sprintf("clause 5: plugin %02d was invoked although plugin %02d before it had failed the request with an error (%s)", pl.spec.Idx, vetoer.spec.Idx, errClass(vetoer.spec.Fault))
 				return
 			}
 			if (ft.Kind == "close" && ft.When == "before") || ft.Kind == "dying" {
@@ -869,11 +872,11 @@ func runOnce(c C07Case) (v verdict) {
 			v.classes = append(v.classes, "veto-after-dropped-plugin")
 		}
 		if res.err == nil {
-			v.fail = fmt.Sprintf("clause 5: plugin %02d returned error %q from its %s handler but the request succeeded", vetoer.spec.Idx, vetoer.spec.Fault.ErrText, c.Req)
+			v.fail = fmt.Sprintf("clause 5: plugin %02d returned error %q (%s) from its %s handler but the request succeeded", vetoer.spec.Idx, vetoer.spec.Fault.ErrText, errClass(vetoer.spec.Fault), c.Req)
 			return
 		}
-		if !strings.Contains(res.err.Error(), vetoer.spec.Fault.ErrText) {
-			v.fail = fmt.Sprintf("clause 5: request failed with %q, which does not carry the handler's error %q", res.err, vetoer.spec.Fault.ErrText)
+		if _, want := handlerError(vetoer.spec.Fault); !strings.Contains(res.err.Error(), want) {
+			v.fail = fmt.Sprintf("clause 5: request failed with %q, which does not carry the handler's error %q (%s)", res.err, want, errClass(vetoer.spec.Fault))
 			return
 		}
 		if res.resp != nil {
@@ -1003,6 +1006,46 @@ func runOnce(c C07Case) (v verdict) {
 			return
 		}
 	}
+	sort.Slice(survivors, func(i, j int) bool { return survivors[i].rank < survivors[j].rank })
+	// a plugin whose handler fails the follow-up request too: it must still be connected (a
+	// handler error does not drop the plugin) and veto again
+	for i, pl := range survivors {
+		ft := pl.spec.Fault
+		if ft.Kind != "error" || !ft.Again {
+			continue
+		}
+		v.classes = append(v.classes, "veto-again")
+		_, want := handlerError(ft)
+		if k := f.count(pl.spec.Idx, followTag); k != 1 {
+			v.fail = fmt.Sprintf("clause 5: plugin %02d, whose handler returns an error (%s), was invoked %d times for the follow-up %s request: a handler error must not disconnect the plugin", pl.spec.Idx, errClass(ft), k, c.Follow)
+			return
+		}
+		if fres.err == nil {
+			v.fail = fmt.Sprintf("clause 5: plugin %02d returned error %q (%s) for the follow-up %s request but it succeeded", pl.spec.Idx, want, errClass(ft), c.Follow)
+			return
+		}
+		if !strings.Contains(fres.err.Error(), want) {
+			v.fail = fmt.Sprintf("clause 5: the follow-up %s request failed with %q, which does not carry the handler's error %q (%s)", c.Follow, fres.err, want, errClass(ft))
+			return
+		}
+		if fres.resp != nil {
+			v.fail = fmt.Sprintf("clause 5: the failed follow-up %s request returned a (partial) result", c.Follow)
+			return
+		}
+		for _, e := range survivors[:i] {
+			if k := f.count(e.spec.Idx, followTag); k != 1 {
+				v.fail = fmt.Sprintf("clause 4: surviving plugin %02d was invoked %d times for the follow-up %s request", e.spec.Idx, k, c.Follow)
+				return
+			}
+		}
+		for _, l := range survivors[i+1:] {
+			if k := f.count(l.spec.Idx, followTag); k != 0 {
+				v.fail = fmt.Sprintf("clause 5: plugin %02d was invoked for the follow-up %s request although plugin %02d before it had failed it with an error", l.spec.Idx, c.Follow, pl.spec.Idx)
+				return
+			}
+		}
+		return
+	}
 	if fres.err != nil {
 		v.fail = fmt.Sprintf("clause 2: the follow-up %s request failed with %q (dropped plugins: %d, survivors: %d)", c.Follow, fres.err, len(struck), len(survivors))
 		return
@@ -1039,6 +1082,14 @@ func partialFrame(k int) []byte {
 	// a ttRPC request header for 54 bytes on stream 1, then filler
 	copy(body, ttrpcMsg(54, 1, 1, 0, nil))
 	return frame(2, body)[:k]
+}
+
+func errFormOf(ft Fault) string {
+	switch ft.ErrForm {
+	case "status", "wrap", "bare":
+		return ft.ErrForm
+	}
+	return "plain"
 }
 
 func describe(ft Fault) string {
